@@ -69,6 +69,10 @@ func newState(data []byte, strict bool) *state {
 func (s *state) scanKeyValue(data []byte, el *fix.KeyValue) error {
 	q := bytes.Join([][]byte{[]byte(el.Key), {'='}}, nil)
 	var keyIndex int
+	if len(data) < len(q) {
+		// too short to hold "tag=" at all (and data[:len(q)] below would be out of range)
+		return nil
+	}
 	if bytes.Equal(data[:len(q)], q) {
 		keyIndex = 0
 	} else {
